@@ -605,8 +605,10 @@ def describe(tier):
             "L1": f"every buffer of length <= {nmax} over the 40-symbol alphabet {ALPHABET!r}",
             "L2": "token templates M? cmd (sep num)^(arity*r), all 18 argument-taking letters, r<=2, number strings of length <= 2/3 over '0159+-.eE', 3/6 separator styles",
             "L3": "all 18 letters x 1-2(3) repeats with symbolic reals; repr-shaped tokens of length <= 5 (7)",
+            "ntos": "the real ntos on a float/int known by its repr: fixed, exponent+/-, int skeletons with <= 4 (7) digits per part, digits symbolic (canonical-repr constraints assumed); str/repr/int/isinstance of the loaded module replaced",
+            "hist": "two parses in one module instance (state reset per path): M0,0 c1 T then M0,0 c2 T, T = seven one-character tokens over '0159' with the 4th and 5th adjacent; ordered letter pairs with an arc (quick) / all (thorough)",
         },
-        "outside": ["buffers longer than the bounds", "Unicode beyond the alphabet", "float() of CPython itself (modelled: sign, digits, fraction, exponent)", "SVG 2's relaxed arc-flag separator rule (the SVG 1.1 BNF is the reference)"],
+        "outside": ["buffers longer than the bounds", "Unicode beyond the alphabet", "float() of CPython itself (modelled: sign, digits, fraction, exponent)", "SVG 2's relaxed arc-flag separator rule (the SVG 1.1 BNF is the reference)", "str(int(n)) of floats >= 1e16 (exact binary expansion)", "exponents beyond +-400 (inf / 0.0 in CPython)", "call histories other than two consecutive parses"],
         "stubs": c10_mods().stubs,
         "assumptions": ["float(repr(x)) == x is CPython's guarantee", "repr(float) shapes: -?int, -?int.frac, -?d(.frac)?e[+-]dd(d)"],
     }
